@@ -93,6 +93,9 @@ extern "C" void harness(void)
     const char *tags = "";
     static char sarg[6];
     int32_t vi = nd_i32(); float vf = nd_float(); ASSUME(vf == vf);
+#ifdef FLOAT_SMALL   /* variant: magnitudes an int can hold (float->int conversions elsewhere stay defined, so counterexamples replay) */
+    ASSUME(vf > -1.0e9f && vf < 1.0e9f && o.c > -1.0e9f && o.c < 1.0e9f);
+#endif
     const bool vt = VT;
     if(!query) {
 #if KIND == 1 || KIND == 2 || KIND == 6 || KIND == 7
